@@ -312,6 +312,25 @@ pub fn like_stream(ctx: &mut Ctx) {
 	like_values::<Compact<u32>, &'static Compact<u32>, Compact<u32>>(ctx, "&Compact<u32> as Compact<u32>", true, false, |o| o);
 	like_values::<Compact<u64>, Box<Compact<u64>>, Compact<u64>>(ctx, "Box<Compact<u64>> as Compact<u64>", true, false, |o| Box::new(Compact(o.0)));
 	like_values::<Vec<Compact<u32>>, Vec<&'static Compact<u32>>, Vec<Compact<u32>>>(ctx, "Vec<&Compact<u32>> as Vec<Compact<u32>>", true, false, |o| o.iter().collect::<Vec<_>>());
+	// elements that occupy memory but encode to nothing (more items than bytes follow the prefix)
+	{
+		use crate::derived::AllSkipped;
+		like_case!(ctx; Vec<AllSkipped>, &'static [AllSkipped] => Vec<AllSkipped>, false, |o| &o[..]);
+		like_case!(ctx; Vec<AllSkipped>, Vec<&'static AllSkipped> => Vec<AllSkipped>, false, |o| o.iter().collect::<Vec<_>>());
+		like_case!(ctx; Vec<AllSkipped>, VecDeque<AllSkipped> => Vec<AllSkipped>, false, |o| o.iter().cloned().collect::<VecDeque<_>>());
+		like_case!(ctx; Vec<AllSkipped>, Vec<AllSkipped> => VecDeque<AllSkipped>, false, |o| o.clone());
+		like_case!(ctx; (Vec<AllSkipped>, u8), (&'static [AllSkipped], &'static u8) => (Vec<AllSkipped>, u8), false, |o| (&o.0[..], &o.1));
+	}
+	// floating-point elements (the generator produces signalling and quiet NaNs, infinities, -0.0):
+	// element-by-element alias forms against the bulk-encoded plain sequence
+	like_case!(ctx; Vec<f32>, Vec<&'static f32> => Vec<f32>, false, |o| o.iter().collect::<Vec<_>>());
+	like_case!(ctx; Vec<f64>, VecDeque<&'static f64> => Vec<f64>, false, |o| o.iter().collect::<VecDeque<_>>());
+	like_case!(ctx; [f64; 3], [Box<f64>; 3] => [f64; 3], false, |o| [Box::new(o[0]), Box::new(o[1]), Box::new(o[2])]);
+	like_case!(ctx; [f32; 4], [&'static f32; 4] => [f32; 4], false, |o| [&o[0], &o[1], &o[2], &o[3]]);
+	like_case!(ctx; f32, &'static f32 => f32, false, |o| o);
+	like_case!(ctx; f64, Box<f64> => f64, false, |o| Box::new(*o));
+	like_case!(ctx; (f32, f64), (&'static f32, Rc<f64>) => (f32, f64), false, |o| (&o.0, Rc::new(o.1)));
+	like_case!(ctx; Option<f32>, Option<&'static f32> => Option<f32>, false, |o| o.as_ref());
 	#[cfg(feature = "bytes-f")]
 	{
 		like_case!(ctx; Vec<u8>, bytes::Bytes => Vec<u8>, false, |o| bytes::Bytes::from(o.clone()));
